@@ -45,6 +45,9 @@ CHECKS = {
  "C11": ("model_checking", "exhaustive enumeration of entry-point histories (no state merging) on fresh read-only opens of every filesystem/table image, write log and image digest as oracle",
          "For each filesystem type (fat12/16/32, ext4, iso9660, squashfs) on a GPT partition, an MBR partition and the whole disk, and for each way of being read-only (file.New(readOnly), a backend whose Writable() fails, diskfs.Open(ReadOnly) and file.OpenFromPath(readOnly) on real files, plus writable opens for reading calls and for finalized ISO/squashfs, plus disks whose primary GPT is damaged), every history of up to 2 (thorough 3) of the ~30 public reading and mutating entry points is executed: every mutating call must return an error, no WriteAt may reach the device, the image hash must be unchanged, reading calls must succeed.",
          "in-memory side effects of refused calls are not judged", "DESIGN.md §3 C11"),
+ "C12": ("exploration", "bounded-exhaustive enumeration of (type, size, placement, label, previous occupant) configurations, each created through disk.CreateFilesystem and re-detected on a fresh disk.Disk",
+         "Cross product of the six filesystem types, sizes around every FAT cluster-count threshold as the Create tables produce them (sector-by-sector around 4085 clusters, 2 KiB / 4 KiB steps around 65525 and the FAT12 maximum), whole disk / GPT partition 1 / GPT partition 3 / MBR partition 1, three labels, and the range previously holding each other filesystem type or bytes that look like FAT directory slots; plus blank ranges. The fresh disk must report the table type, return the filesystem as its own type with its label, the probe file and nothing else.",
+         "ISO9660 is created with a 2048-byte and squashfs with a 4096-byte logical block size, as the library requires", "DESIGN.md §3 C12"),
  "C02": ("exploration", "bounded-exhaustive enumeration of table inputs executed on the real Write/Read + independent on-disk parser",
          "Every table of a spelled-out finite cross product (entries, indices, spellings, geometries, names, attributes, types, disk sizes, sector sizes, PMBR, prior content) is written by the real code and compared via gpt.Read/mbr.Read, partition.Read, Disk.GetPartition and an independent UEFI-spec parser; exhaustive over that domain, says nothing outside it.",
          "memdev in-memory device; gptck (independent parser written from the UEFI spec) defines on-disk validity", "DESIGN.md §3 C02"),
